@@ -92,7 +92,9 @@ def cases(tier, seed):
         k += 1
         heavy = name[0] in ('noise', 'walk')
         for ci in range(k % b['stride'], 24, b['stride']):
-            if tier == 'quick' and SUB24[ci][0][0] == 'rilling' and (heavy or SUB24[ci][1] < 1):
+            if heavy and SUB24[ci][0][0] == 'rilling':
+                continue    # ~1000 iterations per IMF on noise x 36 transformed runs: outside both budgets
+            if tier == 'quick' and SUB24[ci][0][0] == 'rilling' and SUB24[ci][1] < 1:
                 continue    # slow-converging combinations: thorough tier only
             if tier == 'quick' and heavy and not (SUB24[ci][0][0] == 'fixed' or SUB24[ci][0] == ('sd', 0.3)):
                 continue
